@@ -377,6 +377,8 @@ func buildConc(seed int64, kind string, prog [][]string) [][]concOp {
 		// the shared signing key holds an UNREDUCED scalar (d + N, as CreateKey from raw bytes can produce): the same
 		// key, and nothing may "tidy" it in place while other goroutines use it
 		sk.D = new(big.Int).Add(sk.D, curve.Params().N)
+		// ... and so does the shared BLIND key (its bytes, not its residue, are what the blinding factor is derived from)
+		bk.D = new(big.Int).Add(bk.D, curve.Params().N)
 		concPrelude = append(concPrelude, func() {
 			ecdsa.Verify(&sk.PublicKey, []byte("digest"), big.NewInt(1), big.NewInt(1))
 			ecdsa.VerifyASN1(&sk.PublicKey, []byte("digest"), []byte{0x30, 0x03, 0x02, 0x01})
